@@ -273,6 +273,9 @@ impl Position {
 //@       ((self.xmin is Some || self.xmax is Some || self.cx is Some || self.dx is Some) ==> written(m, "x"@, val(b.x1) + or0(self.dx)))
 //@       && ((self.ymin is Some || self.ymax is Some || self.cy is Some || self.dy is Some) ==> written(m, "y"@, val(b.y1) + or0(self.dy)))
 //@       && (old(element).name@ != "use"@ ==> written(m, "width"@, val(b.x2) - val(b.x1)) && written(m, "height"@, val(b.y2) - val(b.y1))) })     @@C11.native.values.rect
+//@ - to_bbox_spec(*self) is Some && old(element).name@ == "text"@ ==> ({ let b = to_bbox_spec(*self)->Some_0; let m = final(element).attrs@; let o = old(element).attrs@;
+//@       written(m, "x"@, val(b.x1)) && written(m, "y"@, val(b.y1)) && lacks(m, seq!["x1"@, "y1"@, "x2"@, "y2"@, "cx"@, "cy"@])
+//@       && map_get(m, "dx"@) == map_get(o, "dx"@) && map_get(m, "dy"@) == map_get(o, "dy"@) })     @@C19.anchor.text_located_by_xy
 //@ - to_bbox_spec(*self) is Some && old(element).name@ == "point"@ ==> ({ let b = to_bbox_spec(*self)->Some_0; let m = final(element).attrs@;
 //@       written(m, "x"@, val(b.x1) + or0(self.dx)) && written(m, "y"@, val(b.y1) + or0(self.dy))
 //@       && lacks(m, seq!["dx"@, "dy"@, "x1"@, "y1"@, "x2"@, "y2"@, "cx"@, "cy"@]) })     @@C09.point.placed @@C11.native.values.point
